@@ -57,7 +57,11 @@ func loadProgram() (*Program, error) {
 			continue
 		}
 		p.funcs[name] = fn
+		if fn.Pkg != nil && (fn.Pkg.Pkg.Name() == "gmars") {
+			p.allFuncs = append(p.allFuncs, fn)
+		}
 	}
+	sort.Slice(p.allFuncs, func(i, j int) bool { return funcName(p.allFuncs[i]) < funcName(p.allFuncs[j]) })
 	// contract files
 	var files []string
 	for _, pat := range []string{"verif_contracts*.go", "cmd/gmars/verif_contracts*.go"} {
